@@ -277,6 +277,16 @@ impl<K: KeyT, V: ValT> World<K, V> {
                 Err(p) => err("chaos-panic", format!("set {}: panic while iterating: {:?}", si, p)),
             }
         }
+        if K::CLASS == ElemClass::ZstDrop {
+            // counted objects: at least as many alive as the collections say they hold
+            let stored: i64 = self.maps.iter().map(|s| 2 * s.m.len() as i64).sum::<i64>() + self.sets.iter().map(|s| s.s.len() as i64).sum::<i64>();
+            let (live, over) = ctx::with(|c| (c.zst_live, c.zst_overdrop));
+            if over {
+                err("ledger", "more destructor runs of zero-sized objects than objects were created (double drop)".to_string());
+            } else if live < stored {
+                err("ledger", format!("(logic-error keys) the collections hold {} zero-sized objects but only {} are alive", stored, live));
+            }
+        }
         for e in ctx::take_errors() {
             err("ledger", e);
         }
